@@ -657,7 +657,7 @@ func runC01(t *mon.T, raw json.RawMessage) {
 
 func genC01(g *mon.G) {
 	r := gen.Rand(g.Seed)
-	n := g.Pick(400, 6000)
+	n := g.Pick(1500, 40000)
 	dpads := []uint64{0, 0, 1, 7, 1413}
 	ipads := []uint64{0, 0, 1, 1024}
 	for i := 0; i < n; i++ {
